@@ -209,6 +209,18 @@ Theorem structure_np k prot sprot ext payload : np (structure k prot sprot ext p
 Proof. rewrite structure_general. apply np_ok. Qed.
 
 (* ---------------------------------------------------------------- nonce derivation *)
+Lemma to_keys_np m : np (to_keys m).
+Proof.
+  induction m as [|[l v] r IH]; cbn [to_keys]; [discriminate|].
+  assert (np (to_key l)). { destruct l as [k z|s]; cbn [to_key]; [|discriminate]. destruct (is_signed k); repeat apply np_if; discriminate. }
+  destruct (to_key l); destruct (to_keys r); try discriminate; contradiction.
+Qed.
+Theorem get_map_np m l : np (get_map m l).
+Proof.
+  unfold get_map. destruct (lookup m (ilabel l)) as [v|]; [|discriminate]. destruct v; try discriminate.
+  pose proof (to_keys_np m0) as H. destruct (to_keys m0); try discriminate. contradiction.
+Qed.
+
 Theorem derive_nonce_np unprot key nsize : np (derive_nonce unprot key nsize).
 Proof.
   unfold np, derive_nonce. destruct (get_bytes unprot 5) as [iv| |] eqn:E5; try discriminate.
